@@ -23,7 +23,6 @@ MCInit ==
   /\ \E os \in OkSets, u \in TxGas..Max, p \in TxGas..Max, pl \in BOOLEAN, f \in BOOLEAN :
         /\ u <= p
         /\ (cap \in os => p <= cap)   \* a successful run never uses more than its limit
-        /\ (pl => cap >= TxGas)          \* assumption CapAdmitsTransfer (see NOTES.md, C37)
         /\ env = [okset |-> os, used |-> u, peak |-> p, plain |-> pl, fatal |-> f, errShift |-> ErrShift]
 
 MCSpec == MCInit /\ [][Next]_vars
